@@ -24,7 +24,7 @@ theorem C06_to_view_headers (f : Fmt) (img : Img) (v : View) (hv : fromBytes f .
     (hl : Loadable v) (i : Nat) (hi : i < sizeOfHeaders v.b) :
     byteAt v.toView i = byteAt v.b i := by
   obtain ⟨h1, h2⟩ := accept_soh hv
-  rw [toView_eq, cfold_out, initVec_hdr _ _ _ h2 h1 _ hi]
+  rw [toView_eq, cfold_out _ _ _ _ _ _ endExact_le, initVec_hdr _ _ _ h2 h1 _ hi]
   intro s hs
   have := (hl.1 s hs).2.2.2.2
   omega
@@ -36,7 +36,7 @@ theorem C06_to_view_section (f : Fmt) (img : Img) (v : View) (hv : fromBytes f .
   obtain ⟨h1, h2⟩ := accept_soh hv
   obtain ⟨a1, a2, a3, a4, a5⟩ := hl.1 s hs
   rw [toView_eq]
-  exact cfold_in v.b Sec.va Sec.vs Sec.prd Sec.rs v.secs _ s hs hl.2 a1 a2
+  exact cfold_in_exact v.b Sec.va Sec.vs Sec.prd Sec.rs v.secs _ s hs hl.2 a1 a2
     (by rw [initVec_size _ _ _ h2 h1]; exact a3) a4 j hj
 
 /-- The virtual-only tail of every section and every byte outside all sections is zero. -/
@@ -45,7 +45,7 @@ theorem C06_to_view_zero (f : Fmt) (img : Img) (v : View) (hv : fromBytes f .fil
     (hout : ∀ s ∈ v.secs, ¬ (s.va ≤ i ∧ i < s.va + min s.vs s.rs)) :
     byteAt v.toView i = 0 := by
   obtain ⟨h1, h2⟩ := accept_soh hv
-  rw [toView_eq, cfold_out, initVec_zero _ _ _ h2 h1 _ hh]
+  rw [toView_eq, cfold_out _ _ _ _ _ _ endExact_le, initVec_zero _ _ _ h2 h1 _ hh]
   intro s hs
   have := hout s hs
   omega
